@@ -87,13 +87,13 @@ Example C15_history_nonvacuous :
   let tri := ([0;1;2], [(0,1);(1,2);(0,2)]) in
   let path := ([0;1;2], [(0,1);(1,2)]) in
   let u := fun v : nat => (Z.of_nat v + 2 # 7)%Q in
-  let calls := [mk_call 0 tri 0 (1#3)%Q u; mk_call 1 path 0 (1#2)%Q u; mk_call 0 tri 1 (2#3)%Q u;
-                mk_call 1 path 5 (1#2)%Q u; mk_call 0 tri 0 (1#5)%Q u] in
+  let calls := [mk_call (0,0) tri 0 (1#3)%Q u; mk_call (0,1) path 0 (1#2)%Q u; mk_call (0,0) tri 1 (2#3)%Q u;
+                mk_call (0,1) path 5 (1#2)%Q u; mk_call (0,0) tri 0 (1#5)%Q u] in
   distinctly_named calls /\
   map (fun o => match o with Some _ => true | None => false end) (run_history alg_q caches_empty calls)
   = [true; true; true; false; true] /\
-  length (cc_sub (snd (auto_step alg_q caches_empty 0 tri 0 (1#3)%Q u))) = 1 /\
-  length (cc_edge (snd (auto_step alg_q caches_empty 0 tri 0 (1#3)%Q u))) = 3.
+  length (cc_sub (snd (auto_step alg_q caches_empty (0,0) tri 0 (1#3)%Q u))) = 1 /\
+  length (cc_edge (snd (auto_step alg_q caches_empty (0,0) tri 0 (1#3)%Q u))) = 3.
 Proof.
   cbv zeta. split; [|vm_compute; repeat split].
   intros c1 c2 H1 H2 Hn. cbn [In] in H1, H2.
